@@ -425,3 +425,9 @@ Proof. repeat split; reflexivity. Qed.
 
 Lemma wf_digits_example : wf_digits [1; 2; 5].
 Proof. unfold wf_digits. simpl. repeat split; try lia. repeat constructor; lia. Qed.
+
+Lemma num_zero_pos : convert2es6 [c_0; c_dot; c_0] = JOk [c_0].
+Proof. reflexivity. Qed.
+
+Lemma num_zero_neg : convert2es6 [c_minus; c_0; c_dot; c_0] = JOk [c_0].
+Proof. reflexivity. Qed.
